@@ -88,11 +88,18 @@ def gen_class_job(ch, jid, label):
     init = names[n_attr:]
     if attrs and ch.chance(label + ".overlap", 0.4):
         init = [attrs[0]] + init[1:]
-    lines = ["class Thing(object):", '    """', "    A thing.", ""]
-    doc_attrs = [a for a in attrs if ch.chance(label + ".da." + a, 0.6)]
-    for a in doc_attrs:
-        lines.append("    :cvar %s: the attribute %s" % (a, a))
-    lines += ['    """', ""]
+    cname = ch.choice(label + ".cname", ["Thing", "Settings", "Paths"])
+    empty_doc = ch.chance(label + ".emptydoc", 0.12)
+    if empty_doc:
+        # a docstring that is present but empty
+        lines = ["class %s(object):" % cname, '    """ """', ""]
+        doc_attrs = []
+    else:
+        lines = ["class %s(object):" % cname, '    """', "    A thing.", ""]
+        doc_attrs = [a for a in attrs if ch.chance(label + ".da." + a, 0.6)]
+        for a in doc_attrs:
+            lines.append("    :cvar %s: the attribute %s" % (a, a))
+        lines += ['    """', ""]
     attr_info = {}
     for a in attrs:
         typ = render.gen_type(ch, label + ".at." + a, "conservative")
@@ -112,15 +119,19 @@ def gen_class_job(ch, jid, label):
         documented = ch.shuffle(label + ".docshuf2", documented)
     sig = ["self"] + [p["name"] + (": %s" % p["typ"]) + ((" = " + render.lit(p["default"])) if p["default"] is not None else "") for p in params]
     lines.append("    def __init__(%s):" % ", ".join(sig))
-    lines += ['        """', "        Construct.", ""]
     byname = {p["name"]: p for p in params}
-    for n in documented:
-        lines += ["        :param %s: %s" % (n, byname[n]["doc"]), ""]
-    lines += ['        """', "        self.value = 1"]
+    if empty_doc:
+        documented = []
+        lines += ['        """"""', "        self.value = 1"]
+    else:
+        lines += ['        """', "        Construct.", ""]
+        for n in documented:
+            lines += ["        :param %s: %s" % (n, byname[n]["doc"]), ""]
+        lines += ['        """', "        self.value = 1"]
     src = "\n".join(lines) + "\n"
     truth = {"attrs": attrs, "init": [p["name"] for p in params], "documented": documented, "doc_attrs": doc_attrs,
              "params": {p["name"]: {"typ": p["typ"], "default": p["default"], "doc": p["doc"]} for p in params}, "attr_info": attr_info}
-    return {"id": jid, "kind": "parse_class_init", "src": src, "name": "Thing", "truth": truth}
+    return {"id": jid, "kind": "parse_class_init", "src": src, "name": cname, "truth": truth}
 
 
 def gen_hop_job(ch, jid, label):
@@ -216,7 +227,7 @@ def gen_corpus(seed, prop, n):
     for i in range(n):
         lab = "j%d" % i
         if prop == "C07":
-            kind = ch.weighted(lab, [("fn", 7), ("cls", 3)])
+            kind = ch.weighted(lab, [("fn", 7), ("cls", 3), ("baddoc", 0.5)])
         elif prop == "C18":
             kind = "wrap"
         else:
@@ -332,6 +343,9 @@ def c07_check_function(job, ir, sig_names, sig_params):
                     out.append(("3-default", "%s: parsed default %r (%s), signature default %r (%s)" % (n, d, type(d).__name__, sp["default"], type(sp["default"]).__name__),
                                 {"how": "%s->%s" % (type(sp["default"]).__name__, type(d).__name__), "documented": _docmode(t), "style": t["style"],
                                  "announce_in_doc": any(x.get("announces") for x in t["params"].values())}))
+        if not sp["has_default"] and "default" in p and p["default"] not in (None, "None", "```None```", "```(None)```") and not (t["params"].get(n) or {}).get("announces"):
+            out.append(("3-default-invented", "%s: Python sees a required parameter, the parsed interface gives it the default %r" % (n, p["default"]),
+                        {"documented": _docmode(t), "style": t["style"], "announce_in_doc": any(x.get("announces") for x in t["params"].values())}))
         if sp["annotation"] is not None and not (t["params"].get(n) or {}).get("announces"):
             if _ws(p.get("typ")) != _ws(sp["annotation"]):
                 out.append(("3-annotation", "%s: parsed type %r, signature annotation %r" % (n, p.get("typ"), sp["annotation"]), {"documented": _docmode(t)}))
@@ -619,6 +633,14 @@ class Replica(object):
                          lambda node: ns.parse.function(ast.parse(ns.st.to_code(node)).body[0])),
             "argparse": (lambda ww: ns.emit.argparse_function(mk_ir(), word_wrap=ww),
                          lambda node: ns.parse.argparse_ast(ast.parse(ns.st.to_code(node)).body[0])),
+            # the same artefacts with the defaults spelled out in the prose ("Defaults to ...")
+            "class_docs": (lambda ww: ns.emit.class_(mk_ir(), word_wrap=ww, emit_default_doc=True), lambda node: ns.parse.class_(ast.parse(ns.st.to_code(node)).body[0])),
+            "function_docs": (lambda ww: ns.emit.function(mk_ir(), function_name="f", function_type="static", word_wrap=ww, emit_default_doc=True),
+                              lambda node: ns.parse.function(ast.parse(ns.st.to_code(node)).body[0])),
+            "function_docs_doctypes": (lambda ww: ns.emit.function(mk_ir(), function_name="f", function_type="static", word_wrap=ww, emit_default_doc=True, inline_types=False),
+                                       lambda node: ns.parse.function(ast.parse(ns.st.to_code(node)).body[0])),
+            "argparse_docs": (lambda ww: ns.emit.argparse_function(mk_ir(), word_wrap=ww, emit_default_doc=True),
+                              lambda node: ns.parse.argparse_ast(ast.parse(ns.st.to_code(node)).body[0])),
         }
         summary = {}
         ll = self.task.get("line_length")
@@ -651,9 +673,12 @@ class Replica(object):
                     continue
                 for (n, x), (_, y) in zip(pa, pb):
                     if _ws(x.get("typ")) != _ws(y.get("typ")):
-                        self.add_violation("C18", job, "W2-type", "%s width %s: %s type %r (wrapped) vs %r" % (kind, ll, n, x.get("typ"), y.get("typ")), {"kind": kind})
-                    elif x.get("default") != y.get("default") or type(x.get("default")) is not type(y.get("default")):
-                        self.add_violation("C18", job, "W3-default", "%s width %s: %s default %r (wrapped) vs %r" % (kind, ll, n, x.get("default"), y.get("default")), {"kind": kind})
+                        head = lambda t: (t or "none").split("[")[0]
+                        self.add_violation("C18", job, "W2-type", "%s width %s: %s type %r (wrapped) vs %r" % (kind, ll, n, x.get("typ"), y.get("typ")),
+                                           {"kind": kind, "tchange": "%s->%s" % (head(x.get("typ")), head(y.get("typ")))})
+                    if x.get("default") != y.get("default") or type(x.get("default")) is not type(y.get("default")):
+                        self.add_violation("C18", job, "W3-default", "%s width %s: %s default %r (wrapped) vs %r" % (kind, ll, n, x.get("default"), y.get("default")),
+                                           {"kind": kind, "dchange": "%s->%s" % (type(x.get("default")).__name__, type(y.get("default")).__name__)})
                     elif _norm_prose(x.get("doc")) != _norm_prose(y.get("doc")):
                         self.add_violation("C18", job, "W4-prose", "%s width %s: %s prose %r (wrapped) vs %r" % (kind, ll, n, x.get("doc"), y.get("doc")), {"kind": kind})
                 if _norm_prose(a.get("doc")) != _norm_prose(b.get("doc")):
